@@ -458,7 +458,7 @@ fn enforce_case() -> BoxedStrategy<Case> {
         // configured timeouts that are effectively unbounded (Duration::MAX): 0 none, 1 endpoint, 2 server, 3 both
         prop_oneof![12 => Just(0u8), 1 => Just(1u8), 1 => Just(2u8), 1 => Just(3u8)],
         // a configured timeout of exactly zero: 0 none, 1 endpoint, 2 server; and the builder usage bits
-        (prop_oneof![10 => Just(0u8), 1 => Just(1u8), 1 => Just(2u8)], prop_oneof![3 => Just(0u8), 2 => 0u8..8, 2 => (0u8..8).prop_map(|b| b | 0x10)]),
+        (prop_oneof![10 => Just(0u8), 1 => Just(1u8), 1 => Just(2u8)], prop_oneof![3 => Just(0u8), 2 => 0u8..8, 2 => (0u8..8).prop_map(|b| b | 0x10), 2 => (0u8..8).prop_map(|b| b | 0x20)]),
     )
         .prop_flat_map(|(stream, rk, ep, srv, (base, g1, g2, min_idx), (unit_sel, pad, mal_sel), (lat, free), huge, (zero, srv_cfg))| {
             (scen_script(stream), c02::wire_blob(false), c02::pipe_schedule(), c02::pipe_schedule(), any::<u64>()).prop_map(
@@ -545,6 +545,11 @@ fn run_enc(secs: u64, nanos: u32, o: &mut Outcome) -> Result<(), Failure> {
         return Ok(());
     }
     let mut r = Request::new(());
+    // a timeout set earlier (a default applied by a wrapper) is replaced, not kept next to the new one
+    if nanos % 2 == 1 {
+        r.set_timeout(Duration::from_secs(3600));
+        o.label("set_timeout_called_twice");
+    }
     r.set_timeout(d);
     let all: Vec<Vec<u8>> = r.metadata().get_all("grpc-timeout").iter().map(|v| v.as_encoded_bytes().to_vec()).collect();
     ensure!(all.len() == 1, "C09/encoded-value-count", "set_timeout({d:?}) left {} grpc-timeout entries", all.len());
@@ -797,6 +802,8 @@ async fn channel_with_timeout(net: &Net, ep: Option<Duration>) -> Result<tonic::
     if let Some(d) = ep {
         e = e.timeout(d);
     }
+    // a connect timeout is about connecting (instant here), never about calls; set after `timeout`, always
+    e = e.connect_timeout(Duration::from_millis(1));
     e.connect_with_connector(net.connector()).await
 }
 
@@ -927,6 +934,9 @@ fn run_enforce(s: &Scen, o: &mut Outcome) -> Result<(), Failure> {
     o.label_if(s.ep_us == Some(u64::MAX) || s.srv_us == Some(u64::MAX), "enf_configured_timeout_duration_max");
     let msg = s.req.bytes();
     let srv_cfg = s.srv_cfg;
+    // (not together with the executor stall: the warm-up call would move the clock)
+    let warm_up = s.srv_cfg & 0x20 != 0 && !s.stall;
+    o.label_if(warm_up, "enf_second_call_on_the_channel");
     // (start, jump) in ms of the executor stall, if this scenario has one
     let stall: Option<(u64, u64)> = match (s.stall, t, &s.req_to, s.ep_us) {
         (true, Some(("srv", t_ns)), None, None) if !expect_cut && l_ms >= 2 && t_ns < 1_000_000_000u128 * MS => {
@@ -984,6 +994,15 @@ fn run_enforce(s: &Scen, o: &mut Outcome) -> Result<(), Failure> {
                 tokio::time::advance(Duration::from_millis(jump)).await;
             });
         }
+        // the channel has a history: an earlier call with a much shorter deadline of its own (it is cut off or
+        // not, which is not judged) must not leave anything behind for the call that is judged
+        if warm_up {
+            let mut client = vt::raw_client::RawClient::new(ch.clone());
+            let mut req = Request::new(b"warm-up".to_vec());
+            req.set_timeout(Duration::from_millis(1));
+            let _ = client.unary(req).await;
+            rt::quiesce().await;
+        }
         let t = timed_call(ch, stream, req_to, msg).await;
         rt::quiesce().await;
         srv.abort();
@@ -1006,7 +1025,9 @@ fn run_enforce(s: &Scen, o: &mut Outcome) -> Result<(), Failure> {
         s.srv_us,
         t.map(|x| x.1)
     );
-    let log = sh.log.lock().unwrap().clone();
+    let mut log = sh.log.lock().unwrap().clone();
+    // the warm-up call is not the call that is judged
+    log.retain(|l| l.msgs.first().map(|m| m != b"warm-up").unwrap_or(true));
     if expect_cut {
         let (_, t_ns) = t.unwrap();
         let st = match first_err {
